@@ -56,3 +56,15 @@ fn bitwise_ops(a: u128, b: u128) -> u128 { (a & b) ^ (a | b) }
 fn u64_bitwise(a: u64, b: u64) -> u64 { (a & b) | (a ^ b) }
 fn u256_bitwise(a: u256, b: u256) -> u256 { (a & b) ^ (a | b) }
 fn shl_u32(a: u32, s: u8) -> u32 { if s < 32 { core::num::traits::WrappingMul::wrapping_mul(a, core::num::traits::Pow::pow(2_u32, (s % 32).into())) } else { 0 } }
+
+// Inputs on both sides of the storage-base-address bound 2^251 - 256 (k = 128 is the bound itself).
+fn storage_base_near_bound(k: u8) -> felt252 {
+    let x: felt252 = 0x7ffffffffffffffffffffffffffffffffffffffffffffffffffffffffffff00 + k.into() - 128;
+    let b = storage_base_address_from_felt252(x);
+    storage_address_from_base(b).into()
+}
+fn storage_base_near_2_251(k: u8) -> felt252 {
+    let x: felt252 = 0x800000000000000000000000000000000000000000000000000000000000000 + k.into() - 128;
+    let b = storage_base_address_from_felt252(x);
+    storage_address_from_base_and_offset(b, k).into()
+}
